@@ -228,7 +228,8 @@ func applyOne(d *Doc, p map[string]interface{}) (*Doc, error) {
 					return nil, ErrUnsupported
 				}
 				if _, ok := d.Other[name]; !ok {
-					return nil, fmt.Errorf("replace of missing member %s", name)
+					// what a json-patch engine does with "replace" of an absent member is not part of any statement
+					return nil, ErrUnsupported
 				}
 				d.Other[name] = deep(val)
 			case "remove":
